@@ -79,7 +79,17 @@ DupCases ==
   \cup {Req("GET", "/", "1.1", <<P("User-Agent", "first/1.0"), P("Host", "h"), P("user-agent", "second/2.0"), Lg(<<Item(3, 1, FALSE)>>), Lg(<<Item(1, 1, FALSE)>>)>>)}
   \cup {Resp("1.1", 200, "OK", <<P("Server", "first"), P("Content-Type", "a"), P("server", "second"), P("Set-Cookie", "a=1"), P("Set-Cookie", "b=2")>>)}
 
-Cases == CASE Fam = "dup" -> DupCases [] Fam = "start" -> StartCases [] Fam = "hdrs" -> HdrCases [] Fam = "ows" -> OwsCases [] Fam = "cookie" -> CookieCases
+\* ---- long: request targets, reason phrases and header values of up to 8000 characters (the parser's documented limits are 8192
+\* per request line and per header line; nothing shorter may be cut, sniffed partially or dropped)
+RECURSIVE Rpt(_, _)
+Rpt(c, n) == IF n = 0 THEN "" ELSE IF n % 2 = 0 THEN LET h == Rpt(c, n \div 2) IN h \o h ELSE c \o Rpt(c, n - 1)
+LongCases ==
+  {Req("GET", "/" \o Rpt("a", n), v, <<P("Host", "example.com"), P("User-Agent", UA)>>) : n \in {1000, 1009, 1010, 1011, 1023, 1024, 1025, 2048, 4096, 8000}, v \in {"1.0", "1.1"}}
+  \cup {Req("POST", "/x?q=" \o Rpt("z", 1500), "1.1", <<P("Host", "h"), P("User-Agent", Rpt("u", n)), P("X-Long", Rpt("v", n))>>) : n \in {1023, 1024, 1025, 4000, 8000}}
+  \cup {Resp("1.1", 200, Rpt("r", n), <<P("Server", "s"), P("X-Long", Rpt("w", n))>>) : n \in {1010, 1024, 1100, 4000}}
+  \cup {Resp("1.0", 404, "Not Found", <<P("Server", Rpt("S", n)), P("Content-Type", "t")>>) : n \in {1024, 8000}}
+
+Cases == CASE Fam = "long" -> LongCases [] Fam = "dup" -> DupCases [] Fam = "start" -> StartCases [] Fam = "hdrs" -> HdrCases [] Fam = "ows" -> OwsCases [] Fam = "cookie" -> CookieCases
            [] Fam = "lang" -> LangCases [] Fam = "many" -> ManyCases
 CaseSeq == SetToSeq(Cases)
 
